@@ -48,7 +48,7 @@ Inductive pat :=
 | PInt (input : arg)
 | PBinOp (o : op) (a b : arg)        (* PAdd PSub PMul PDiv PFloorDiv PMod PPow PLShift PRShift PEqual PNotEqual PGreaterThan PGreaterThanOrEqual PLessThan PLessThanOrEqual *)
 | PAnd (a b : arg)
-| PArrayIndex (list index : arg)
+| PArrayIndex (list index : arg) (exhausted : bool)   (* exhausted: repair C09-parrayindex-revives *)
 | PDict (dict : arg)
 | PDictKey (dict key : arg)
 (* sequence.py *)
